@@ -7,6 +7,10 @@ import UvModel.HandleKernels
   hand-written model kernels on which the property theorems are stated.  A change of the C
   text changes the generated term; if it changes the meaning, the proof below stops checking.
 
+  This file holds the obligations of the loop core and the timers (C01–C04); the other properties'
+  obligations live in `UvModel/GenEq/C07.lean`, `C12.lean`, `C19.lean`, `C20.lean`, each built by
+  its own check only, so that a change in one property's C text cannot break another's tie.
+
   Range hypotheses (`0 ≤ x < 2^64` …) are the C types' ranges; counters additionally need the
   "no underflow / no wrap" facts, which are exactly the invariants the loop model proves.
 -/
